@@ -43,3 +43,35 @@ def primitive_unit(core):
                 changed = True
     core.__dict__["_prim_unit"] = unit
     return unit
+
+
+VARINT_KEYS = ("BinaryOutput::write_var_u32", "BinaryOutput::write_var_i32", "BinaryInput::read_var_u32", "BinaryInput::read_var_i32")
+
+
+def varint_unit(core):
+    """the four varint routines and the private helpers only they use (exhaustively interpreted by pack B)"""
+    cached = core.__dict__.get("_varint_unit")
+    if cached is not None:
+        return cached
+    unit = {b.defn for b in core.bodies.values() if b.key in VARINT_KEYS}
+    cg = callgraph.CallGraph(core)
+    callers = {}
+    for f, es in cg.edges.items():
+        for e in es:
+            callers.setdefault(e, set()).add(f)
+    from .walk import ANCHORS
+    changed = True
+    while changed:
+        changed = False
+        for b in core.bodies.values():
+            if b.defn in unit:
+                continue
+            cs = callers.get(b.defn, set())
+            if b.kind == "Closure" and b.raw.get("root") in unit:
+                unit.add(b.defn)
+                changed = True
+            elif cs and cs <= unit and b.key not in ANCHORS and b.vis not in (None, "Public") and not (b.impl and b.impl.get("trait")):
+                unit.add(b.defn)
+                changed = True
+    core.__dict__["_varint_unit"] = unit
+    return unit
